@@ -91,7 +91,15 @@ func r08_1(c *RC) {
 		c.OKH("epoch-value", sf.Pos(), "epoch = Round(t).Unix(), the very instant whose bytes are hashed into the salt")
 	}
 	// the instants salts are derived for, in order
-	if offs, ok := saltInstants(sf); ok && strings.Join(offs, ",") == "-120,0,120" {
+	offs, ok := saltInstants(sf)
+	if !ok || strings.Contains(strings.Join(offs, ","), "?") {
+		// not a list of appends or a literal: evaluate the function, with
+		// instants represented by their distance from the rounded time
+		if fo, fok := foldSaltInstants(p, sf); fok {
+			offs, ok = fo, true
+		}
+	}
+	if ok && strings.Join(offs, ",") == "-120,0,120" {
 		c.OKH("slot-offsets", sf.Pos(), "three salts, in this order: rounded-120s, rounded, rounded+120s")
 	} else {
 		c.Bad("slot-offsets", sf.Pos(), "saltFromTime derives salts for the instants [%s] s relative to the rounded time; the protocol (and the sender's use of index 1) requires previous, current, next 2-minute slot in this order", strings.Join(offs, ","))
@@ -354,21 +362,60 @@ func r08_3(c *RC) {
 		}
 	}
 	// reuse conditions
-	reuse := func(fn *ssa.Function, key string) {
-		// a comparison entry.epoch (!= | ==) cipherKeyEpoch(now)/epoch must guard reuse
-		found := false
-		instrs(fn, func(_ *ssa.BasicBlock, _ int, in ssa.Instruction) {
-			bo, ok := in.(*ssa.BinOp)
-			if !ok || (bo.Op != token.NEQ && bo.Op != token.EQL) {
-				return
+	// epochMatch: v is "this entry's epoch is the epoch of the instant at
+	// hand" - the comparison itself, or a predicate method that is nothing
+	// but that comparison (entry.inEpochOf(now)). eq tells whether v is true
+	// on a match.
+	var epochMatch func(v ssa.Value, depth int) (eq bool, ok bool)
+	epochMatch = func(v ssa.Value, depth int) (bool, bool) {
+		switch x := v.(type) {
+		case *ssa.BinOp:
+			if x.Op != token.NEQ && x.Op != token.EQL {
+				return false, false
 			}
 			isEpochField := func(v ssa.Value) bool { return sameField(fieldOrigin(v), epochF) }
 			isEpochNow := func(v ssa.Value) bool {
 				_, ok := isEpochExpr(v)
 				return ok
 			}
-			if (isEpochField(bo.X) && isEpochNow(bo.Y)) || (isEpochField(bo.Y) && isEpochNow(bo.X)) {
-				found = true
+			if (isEpochField(x.X) && isEpochNow(x.Y)) || (isEpochField(x.Y) && isEpochNow(x.X)) {
+				return x.Op == token.EQL, true
+			}
+		case *ssa.Call:
+			sc := x.Common().StaticCallee()
+			if depth > 0 || sc == nil || sc.Blocks == nil || relPkg(sc) != "pkg/cipher" || len(sc.Blocks) > 4 || sc.Signature.Results().Len() != 1 || !isBoolType(sc.Signature.Results().At(0).Type()) {
+				return false, false
+			}
+			eq, all, n := false, true, 0
+			instrs(sc, func(_ *ssa.BasicBlock, _ int, in ssa.Instruction) {
+				switch y := in.(type) {
+				case *ssa.Return:
+					atom, neg := condAtom(retVal(y, 0))
+					e, ok := epochMatch(atom, depth+1)
+					if !ok {
+						all = false
+						return
+					}
+					n++
+					eq = e != neg
+				case *ssa.Store, *ssa.Go, *ssa.Send, *ssa.MapUpdate:
+					all = false
+				}
+			})
+			if all && n == 1 {
+				return eq, true
+			}
+		}
+		return false, false
+	}
+	reuse := func(fn *ssa.Function, key string) {
+		// a comparison entry.epoch (!= | ==) cipherKeyEpoch(now)/epoch must guard reuse
+		found := false
+		instrs(fn, func(_ *ssa.BasicBlock, _ int, in ssa.Instruction) {
+			if v, ok := in.(ssa.Value); ok {
+				if _, ok := epochMatch(v, 0); ok {
+					found = true
+				}
 			}
 		})
 		if found {
@@ -381,13 +428,17 @@ func r08_3(c *RC) {
 	reuse(td, "reuse@tryDecryptAt")
 	// in getCachedCiphers the cached return must be unreachable on the epoch-mismatch edge
 	ex := &Explorer{Fn: gc, Atom: func(cond ssa.Value) (string, int, bool) {
-		if bo, ok := cond.(*ssa.BinOp); ok && (bo.Op == token.NEQ || bo.Op == token.EQL) {
-			if sameField(fieldOrigin(bo.X), epochF) || sameField(fieldOrigin(bo.Y), epochF) {
-				if bo.Op == token.NEQ {
-					return "epoch-mismatch", 0, true
-				}
-				return "epoch-mismatch", 1, true
+		atom, neg := condAtom(cond)
+		if eq, ok := epochMatch(atom, 0); ok {
+			// index of the successor on which the epochs differ
+			mismatchIdx := 1
+			if !eq {
+				mismatchIdx = 0
 			}
+			if neg {
+				mismatchIdx = 1 - mismatchIdx
+			}
+			return "epoch-mismatch", mismatchIdx, true
 		}
 		return "", 0, false
 	}, Assume: map[string]bool{"epoch-mismatch": true}}
@@ -539,5 +590,47 @@ func saltInstants(sf *ssa.Function) ([]string, bool) {
 			}
 		}
 	})
+	return out, len(out) > 0
+}
+
+
+// foldSaltInstants evaluates saltFromTime with the constant folder: a
+// time.Time is represented by its distance in nanoseconds from
+// t.Round(KeyRefreshInterval); Add of a folded constant moves it; every
+// Unix() call (the value hashed into a salt) records where it stands. Works
+// for counted loops and offset tables alike; any unknown yields !ok.
+func foldSaltInstants(p *Prog, sf *ssa.Function) ([]string, bool) {
+	var out []string
+	bad := false
+	f := &Folder{P: p, CallHook: func(call *ssa.Call, args []cval) (cval, bool) {
+		switch calleeID(call) {
+		case "(time.Time).Round":
+			if len(args) == 2 && args[1].known {
+				if k, ok := constant.Int64Val(args[1].v); ok && k == 120e9 {
+					return cInt(0), true
+				}
+			}
+			bad = true
+		case "(time.Time).Add":
+			if len(args) == 2 && args[0].known && args[1].known {
+				a, _ := constant.Int64Val(args[0].v)
+				d, _ := constant.Int64Val(args[1].v)
+				return cInt(a + d), true
+			}
+			bad = true
+		case "(time.Time).Unix":
+			if len(args) == 1 && args[0].known {
+				a, _ := constant.Int64Val(args[0].v)
+				out = append(out, fmt.Sprint(a/1e9))
+			} else {
+				bad = true
+			}
+		}
+		return cval{}, false
+	}}
+	outs := f.Eval(sf, []cval{{}})
+	if f.Over || bad || len(outs) != 1 {
+		return nil, false
+	}
 	return out, len(out) > 0
 }
